@@ -472,7 +472,7 @@ func (r *Run) violation(label, kind, detail string, cond *Term) {
 	found := false
 	if !(q.IsConst() && !q.CB) && r.check(q) == Sat {
 		vec := r.modelVector(q)
-		r.res.Violations = append(r.res.Violations, Violation{Label: label, Kind: kind, Detail: detail, Vector: vec, Decision: append([]int64(nil), r.decisions...), Stack: r.stackString()})
+		r.res.Violations = append(r.res.Violations, Violation{Label: label, Kind: kind, Detail: detail, Vector: vec, Decision: append([]int64(nil), r.decisions...), Stack: r.stackString(), Sched: append([]string(nil), r.schedTrace...)})
 		found = true
 	}
 	for _, k := range open {
@@ -482,7 +482,7 @@ func (r *Run) violation(label, kind, detail string, cond *Term) {
 		}
 		if r.check(qk) == Sat {
 			vec := r.modelVector(qk)
-			r.res.Violations = append(r.res.Violations, Violation{Label: label, Kind: kind, Detail: detail, Vector: vec, Decision: append([]int64(nil), r.decisions...), Known: k.id, Stack: r.stackString()})
+			r.res.Violations = append(r.res.Violations, Violation{Label: label, Kind: kind, Detail: detail, Vector: vec, Decision: append([]int64(nil), r.decisions...), Known: k.id, Stack: r.stackString(), Sched: append([]string(nil), r.schedTrace...)})
 			found = true
 		}
 	}
